@@ -77,6 +77,23 @@ class OpaqueMethod:
         self.obj, self.name = obj, name
 
 
+class Havoc:
+    """the unknown value of a variable after a loop that the verifier could not follow (only used on the way to a cut point:
+    any use other than a truth test leaves the subset)"""
+    def __init__(self, name):
+        self.name = name
+        self.truth_var = None
+
+    def __repr__(self):
+        return f'<havoc {self.name}>'
+
+
+class CutReached(Exception):
+    """the cut-point loop of the contract under verification was reached: its clauses are evaluated, the path ends"""
+    def __init__(self, env):
+        self.env = env
+
+
 class Infeasible(Exception):
     """The current path condition is unsatisfiable (pruned)."""
 
@@ -186,6 +203,8 @@ class Interp:
         self.ghost: Dict[str, object] = {}
         self.ghost_names: Dict[str, int] = {}
         self.events = []            # ghost trace of calls on external / opaque objects
+        self.cut_text = None        # source text of the loop header at which the contract under verification is evaluated
+        self.havoc_loops = False    # on the way to a cut point, loops the rules cannot follow are over-approximated by havoc
         from .seq import PipeTable
         self.pipes = PipeTable(self)
         self.pointwise = 0
@@ -375,6 +394,10 @@ class Interp:
         if isinstance(v, Opaque):
             if v.truth_var is None:
                 v.truth_var = self.fresh(f'truth({v.tag})', 'bool')
+            return v.truth_var
+        if isinstance(v, Havoc):
+            if v.truth_var is None:
+                v.truth_var = self.fresh(f'truth({v.name})', 'bool')
             return v.truth_var
         if isinstance(v, (EnumVal, SEnum, ClassInfo, FuncInfo, Closure, BoundMethod, NativeFn, ExcVal, ExtName)):
             return True
@@ -653,7 +676,47 @@ class Interp:
                 return True
         return False
 
+    def _is_cut(self, st):
+        if self.cut_text is None or self.depth != 1:
+            return False
+        head = ast.unparse(st).split('\n')[0].rstrip(':').strip()
+        return head == self.cut_text
+
+    def havoc_loop(self, st, env):
+        """sound over-approximation of a loop: every local it assigns or mutates becomes unknown"""
+        names = set()
+        for n in ast.walk(st):
+            if isinstance(n, (ast.Assign, ast.AugAssign, ast.AnnAssign)):
+                for t in (n.targets if isinstance(n, ast.Assign) else [n.target]):
+                    for m in ast.walk(t):
+                        if isinstance(m, ast.Name):
+                            names.add(m.id)
+            elif isinstance(n, (ast.For, ast.comprehension)):
+                for m in ast.walk(n.target):
+                    if isinstance(m, ast.Name):
+                        names.add(m.id)
+            elif isinstance(n, ast.Call) and isinstance(n.func, ast.Attribute) and isinstance(n.func.value, ast.Name) \
+                    and n.func.attr in ('append', 'insert', 'extend', 'pop', 'update', 'add', 'clear', 'remove', 'sort'):
+                names.add(n.func.value.id)
+            # (a return / raise inside the loop leaves the function without reaching the cut point: such paths are not the
+            # subject of a cut-point contract)
+        for nm in names:
+            env.vars[nm] = Havoc(nm)
+
     def st_For(self, st, env):
+        if self._is_cut(st):
+            raise CutReached(env)
+        if self.havoc_loops and self.depth == 1:
+            saved = dict(env.vars)
+            try:
+                return self._st_For(st, env)
+            except Unsupported:
+                env.vars.clear()
+                env.vars.update(saved)
+                return self.havoc_loop(st, env)
+        return self._st_For(st, env)
+
+    def _st_For(self, st, env):
         it = self.ev(st.iter, env)
         if isinstance(it, SStr) and not it.is_concrete():
             return self.for_over_runs(st, it, env)
@@ -733,6 +796,19 @@ class Interp:
                 raise Unsupported('heap write inside loop over run-length string')
 
     def st_While(self, st, env):
+        if self._is_cut(st):
+            raise CutReached(env)
+        if self.havoc_loops and self.depth == 1:
+            saved = dict(env.vars)
+            try:
+                return self._st_While(st, env)
+            except Unsupported:
+                env.vars.clear()
+                env.vars.update(saved)
+                return self.havoc_loop(st, env)
+        return self._st_While(st, env)
+
+    def _st_While(self, st, env):
         n = 0
         while True:
             c = self.truth(self.ev(st.test, env))
